@@ -57,47 +57,82 @@ Example f6_witness_is_that_cut :
   has (crash ex_cfg ex_s0 ex_hist (S f6_cut)) (KQuality (bid 3 3)) = true.
 Proof. exact f6_cut_position. Qed.
 
-(* ... and in the example history (28 writes, 29 cut positions) the unrepaired restart diverges at exactly the four cuts of
+(* ... and in the example history (25 writes, 26 cut positions) the unrepaired restart diverges at exactly the four cuts of
    that class and nowhere else (a checked instance, not a theorem over all histories) *)
 Example without_repair_exactly_the_f6_cuts_diverge :
   filter (fun k =>
     negb match resume ex_cfg false (crash ex_cfg ex_s0 ex_hist k) (skipn (import_of_cut ex_cfg ex_s0 ex_hist k) ex_hist) with
          | Some s' => same_outcome ex_cfg false s' (run ex_cfg ex_s0 ex_hist)
          | None => false
-         end) (seq 0 (S (length (writes_of ex_cfg ex_s0 ex_hist)))) = [3; 10; 18; 26]%nat.
+         end) (seq 0 (S (length (writes_of ex_cfg ex_s0 ex_hist)))) = [3; 10; 17; 24]%nat.
 Proof. exact resume_diverges_exactly_at_f6_cuts. Qed.
 
-(* ---- with the repair (the code as it is now): for EVERY history and EVERY cut.
+(* ---- with both repairs (F6: NewEngine commits an interrupted store-point head again; F13: CommitBlock writes the quality
+   record and the finalized record in ONE batch) — the code as it is now: for EVERY history and EVERY cut, no exception.
    Hypotheses: wf_cfg2 (epoch length > 1), Inv2 of the initial store (Inv + every stored store-point block has its quality
    record + every chain-head entry names a stored block; proved for every genesis store), wf_hist.
-   [cut_in_import k i]: the cut k lies inside (or at the start of) the import of block i. After restart and resumption of the
-   stream from block i the store is EQUIVALENT (same value under every key) to the uninterrupted run's — except when the cut
-   lies between the quality record and the finalized record of block i: then the restarted store agrees with the completed
-   import on every key but the finalized record, which still holds the previous value (the lag the property tolerates
-   "until one further epoch has committed"; the catching-up is resume_catches_up below). *)
-Theorem resume_converges_except c s0 hist k i :
+   [cut_in_import k i]: the cut k lies inside (or at the start of) the import of block i.  After restart and resumption of the
+   stream from block i the store is EQUIVALENT (same value under every key: stored set, best pointer, quality records,
+   finalized record) to the uninterrupted run's.  No premise about which blocks the stream contains (forks below the
+   finalized block, refused blocks, duplicates: all allowed). *)
+Theorem resume_converges c s0 hist k i :
   wf_cfg2 c -> Inv2 c s0 -> wf_hist c s0 hist -> cut_in_import c s0 hist k i ->
-  exists r, resume c true (crash c s0 hist k) (skipn i hist) = Some r /\
-    (eqv r (run c s0 hist) \/
-     exists b rest, skipn i hist = b :: rest /\
-                    finalized_window c (run c s0 (firstn i hist)) (crash c s0 hist k) b rest r).
-Proof. exact (ProofsResumeAll.resume_converges_except c s0 hist k i). Qed.
+  exists r, resume c true (crash c s0 hist k) (skipn i hist) = Some r /\ eqv r (run c s0 hist).
+Proof. exact (ProofsResumeAll.resume_converges c s0 hist k i). Qed.
 
 (* equivalence spelled out: same best block, finalized block, stored set and quality records (vote tallies) *)
 Theorem resume_converges_observations c s0 hist k i :
   wf_cfg2 c -> Inv2 c s0 -> wf_hist c s0 hist -> cut_in_import c s0 hist k i ->
   exists r, resume c true (crash c s0 hist k) (skipn i hist) = Some r /\
-    ((get_id r KBest = get_id (run c s0 hist) KBest /\ finalized c r = finalized c (run c s0 hist) /\
-      (forall id, stored r id = stored (run c s0 hist) id) /\ (forall id, get_quality r id = get_quality (run c s0 hist) id))
-     \/ exists b rest, skipn i hist = b :: rest /\
-                       finalized_window c (run c s0 (firstn i hist)) (crash c s0 hist k) b rest r).
+    get_id r KBest = get_id (run c s0 hist) KBest /\ finalized c r = finalized c (run c s0 hist) /\
+    (forall id, stored r id = stored (run c s0 hist) id) /\ (forall id, get_quality r id = get_quality (run c s0 hist) id).
 Proof. exact (ProofsResumeAll.resume_converges_observations c s0 hist k i). Qed.
 
-(* a block that is stored is a no-op when delivered again; the import issues the same steps on stores that agree outside
-   the trie-node / code spaces (so leftovers of an interrupted import influence nothing) *)
+(* the commit of the bft engine is at most ONE batch (so there is no cut between the quality and the finalized record) *)
+Theorem bft_commit_is_one_batch c s id parent just comm :
+  let cw := writes_of_steps (commit_steps c s id parent just comm) in
+  cw = [] \/
+  (exists q, cw = [[Put (KQuality id) (VNum q)]] /\ is_storepoint (c_L c) (num_of id) = true) \/
+  (exists q f, cw = [[Put (KQuality id) (VNum q); Put KFinalized (VId f)]] /\ is_storepoint (c_L c) (num_of id) = true).
+Proof. exact (commit_shape c s id parent just comm). Qed.
+
+(* ---- finding F13 (the code before /repo 38d50ce wrote the two records separately).  [split_window] is the image a stop
+   between the two writes left: the cut before a commit batch plus that batch's quality record alone.  The resume clause at
+   such an image is refuted: blocks 1..5 of the example history (block 5 finalizes block 2), then a sibling of block 2 — the
+   uninterrupted node refuses it (errBFTRejected), the node restarted from the image still holds genesis as finalized and
+   stores it.  (On the real code, with a longer fork that wins Select, best and finalized diverge as well:
+   corpus/C13/f13-fork-below-pending-checkpoint.json.)  Under the repaired code the same stream converges at every cut. *)
+Theorem f13_split_write_refuted : ~ resume_converges_split_statement.
+Proof. exact ExamplesCatchUp.f13_split_write_refuted. Qed.
+
+Example f13_witness :
+  cut_in_import ex_cfg ex_s0 ex_hist_fork 17 4 /\
+  nth_error (writes_of ex_cfg ex_s0 ex_hist_fork) 17 = Some [Put (KQuality (bid 5 5)) (VNum 3); Put KFinalized (VId (bid 2 2))] /\
+  no_bft_reject ex_cfg ex_s0 ex_hist_fork = false /\
+  stored (run ex_cfg ex_s0 ex_hist_fork) (bid 2 9) = false /\
+  finalized ex_cfg (run ex_cfg ex_s0 ex_hist_fork) = bid 2 2 /\
+  finalized ex_cfg (split_window ex_cfg ex_s0 ex_hist_fork 17 (bid 5 5) 3) = bid 0 7 /\
+  option_map (fun r => stored r (bid 2 9))
+    (resume ex_cfg true (split_window ex_cfg ex_s0 ex_hist_fork 17 (bid 5 5) 3) (skipn 4 ex_hist_fork)) = Some true.
+Proof. exact ex_fork_facts. Qed.
+
+Example f13_stream_converges_with_the_repair :
+  wf_hist ex_cfg ex_s0 ex_hist_fork /\
+  forallb (fun k =>
+    match resume ex_cfg true (crash ex_cfg ex_s0 ex_hist_fork k) (skipn (import_of_cut ex_cfg ex_s0 ex_hist_fork k) ex_hist_fork) with
+    | Some s' => same_outcome ex_cfg true s' (run ex_cfg ex_s0 ex_hist_fork) && negb (stored s' (bid 2 9))
+    | None => false
+    end) (seq 0 (S (length (writes_of ex_cfg ex_s0 ex_hist_fork)))) = true /\
+  length (writes_of ex_cfg ex_s0 ex_hist_fork) = 18%nat.
+Proof. exact (conj ex_fork_wf_hist ex_fork_converges). Qed.
+
+(* a block that is stored is a no-op when delivered again; the DECISIONS of the import path (known / parent missing /
+   rejected / conflicts / fork choice / quality / finalized) read chain and bft keys only: the model issues the same steps on
+   stores that agree outside the trie-node / code spaces.  (By construction for block execution: its results are data of the
+   block here; that re-execution over leftovers gives the same results is checked on the real code only.) *)
 Theorem redelivered_known_block_is_noop c s b : stored s (b_id b) = true -> import_batches c s b = [].
 Proof. exact (known_is_noop c s b). Qed.
-Theorem import_reads_no_node_or_code s s' c b : eqv_na s s' -> import_steps c s b = import_steps c s' b.
+Theorem import_decisions_read_only_chain_keys s s' c b : eqv_na s s' -> import_steps c s b = import_steps c s' b.
 Proof. exact (na_import_steps s s' c b). Qed.
 
 (* the uninterrupted run keeps the extended invariant; every genesis store has it *)
@@ -110,65 +145,20 @@ Proof. exact (genesis_inv2 L g). Qed.
 Example resume_hypotheses_met : wf_cfg2 ex_cfg /\ Inv2 ex_cfg ex_s0 /\ wf_hist ex_cfg ex_s0 ex_hist /\ cut_in_import ex_cfg ex_s0 ex_hist f6_cut 2.
 Proof. exact (conj ex_wf_cfg2 (conj ex_inv2 (conj ex_wf_hist (proj1 f6_cut_position)))). Qed.
 
-(* the example history, cut by cut (the finalized-window cut of the last committed epoch is cut 27) *)
+(* the example history, cut by cut: same best block, tallies and finalized block at every one of its 26 cuts *)
 Example with_repair_every_cut_of_the_example_converges :
   (forallb (fun k =>
     match resume ex_cfg true (crash ex_cfg ex_s0 ex_hist k) (skipn (import_of_cut ex_cfg ex_s0 ex_hist k) ex_hist) with
-    | Some s' => same_outcome ex_cfg (negb (Nat.eqb k 27)) s' (run ex_cfg ex_s0 ex_hist)
+    | Some s' => same_outcome ex_cfg true s' (run ex_cfg ex_s0 ex_hist)
     | None => false
     end) (seq 0 (S (length (writes_of ex_cfg ex_s0 ex_hist))))) = true /\
-  length (writes_of ex_cfg ex_s0 ex_hist) = 28%nat /\
-  option_map (finalized ex_cfg) (resume ex_cfg true (crash ex_cfg ex_s0 ex_hist 27) []) = Some (bid 2 2).
+  length (writes_of ex_cfg ex_s0 ex_hist) = 25%nat.
 Proof. exact resume_converges_on_example. Qed.
 
-(* ---- "... and to the same finalized checkpoint once one further epoch has committed" (the exception above, closed).
-   Additional hypotheses: InvQ of the initial store (every stored store-point block's quality record = the record of the
-   previous epoch's store point on its chain + 1 if its epoch is justified; the finalized block is the first block of an
-   epoch — both hold for every genesis store and are kept by every import), and [no_bft_reject]: no block of the stream is
-   refused by the uninterrupted node's finality check (errBFTRejected).
-   For EVERY history and EVERY cut: the resumed store agrees with the uninterrupted run's under every key except possibly
-   the finalized record; the finalized block it holds is the uninterrupted node's or an ancestor of it; and if the
-   uninterrupted node's finalized block after the whole stream differs from the one it had right after the interrupted
-   import (= a further epoch has committed), the two stores are equivalent under EVERY key.  Since the history is
-   universally quantified this holds at every later point of the stream as well. *)
-Theorem resume_catches_up c s0 hist k i :
-  wf_cfg2 c -> Inv2 c s0 -> InvQ c s0 -> wf_hist c s0 hist -> no_bft_reject c s0 hist = true ->
-  cut_in_import c s0 hist k i ->
-  exists r, resume c true (crash c s0 hist k) (skipn i hist) = Some r /\
-    Lag c r (run c s0 hist) /\
-    (finalized c (run c s0 hist) <> finalized c (run c s0 (firstn (S i) hist)) -> eqv r (run c s0 hist)).
-Proof. exact (ProofsCatchUp.resume_catches_up c s0 hist k i). Qed.
-
-(* the same in terms of the observations: best block, stored set, quality records (vote tallies) always; the finalized
-   block is an ancestor-or-equal, and equal once the uninterrupted node's has moved *)
-Theorem resume_catches_up_observations c s0 hist k i :
-  wf_cfg2 c -> Inv2 c s0 -> InvQ c s0 -> wf_hist c s0 hist -> no_bft_reject c s0 hist = true ->
-  cut_in_import c s0 hist k i ->
-  exists r, resume c true (crash c s0 hist k) (skipn i hist) = Some r /\
-    let u := run c s0 hist in
-    get_id r KBest = get_id u KBest /\ (forall id, stored r id = stored u id) /\
-    (forall id, get_quality r id = get_quality u id) /\
-    anc u (finalized c u) (num_of (finalized c r)) = Some (finalized c r) /\
-    (finalized c u <> finalized c (run c s0 (firstn (S i) hist)) -> finalized c r = finalized c u).
-Proof. exact (ProofsCatchUp.resume_catches_up_observations c s0 hist k i). Qed.
-
-(* transfer to resumed nodes: every statement about the uninterrupted node's store that does not read the finalized record
-   (stored set, best pointer, quality records = vote tallies, block data — what C04's tallies are made of) holds of the
-   resumed node's store; every statement at all once the uninterrupted node's finalized block has moved *)
-Theorem resumed_node_inherits c s0 hist k i (P : store -> Prop) :
-  wf_cfg2 c -> Inv2 c s0 -> InvQ c s0 -> wf_hist c s0 hist -> no_bft_reject c s0 hist = true ->
-  cut_in_import c s0 hist k i ->
-  (forall a b, eqv_nf a b -> P b -> P a) -> P (run c s0 hist) ->
-  exists r, resume c true (crash c s0 hist k) (skipn i hist) = Some r /\ P r.
-Proof. exact (ProofsCatchUp.resumed_node_inherits c s0 hist k i P). Qed.
-Theorem resumed_node_inherits_all c s0 hist k i (P : store -> Prop) :
-  wf_cfg2 c -> Inv2 c s0 -> InvQ c s0 -> wf_hist c s0 hist -> no_bft_reject c s0 hist = true ->
-  cut_in_import c s0 hist k i ->
-  finalized c (run c s0 hist) <> finalized c (run c s0 (firstn (S i) hist)) ->
-  (forall a b, eqv a b -> P b -> P a) -> P (run c s0 hist) ->
-  exists r, resume c true (crash c s0 hist k) (skipn i hist) = Some r /\ P r.
-Proof. exact (ProofsCatchUp.resumed_node_inherits_all c s0 hist k i P). Qed.
-
+(* ---- qualities along a chain and nodes whose finalized record lags (what the code before the F13 repair could at best
+   converge to; kept as general facts about the model: InvQ = the quality recurrence + the finalized block is the first block
+   of an epoch; Lag r u = r and u agree under every key but the finalized record and r's finalized block is u's or an
+   ancestor of it). *)
 (* one import on a lagging and an up-to-date store: the relation is kept, and the import that moves the up-to-date node's
    finalized block makes the stores equivalent (the step the theorem above iterates) *)
 Theorem lagging_import_step c r u b : wf_cfg2 c -> Inv2 c u -> InvQ c u -> wf_blk u b -> Lag c r u ->
@@ -193,29 +183,10 @@ Proof. exact (run_invq c l s). Qed.
 Theorem genesis_store_invq L g : 1 < L -> num_of (b_id g) = 0 -> InvQ (mkCfg L (b_id g)) (genesis_store g).
 Proof. exact (genesis_invq L g). Qed.
 
-(* non-vacuity: the example history meets the hypotheses; cut 19 is the cut between the quality record and the finalized
-   record of block 5; the uninterrupted node's finalized block moves afterwards (block 2 -> block 4), so the theorem's
-   last clause applies, and the resumed node indeed ends with block 4 *)
-Example catch_up_hypotheses_met :
-  wf_cfg2 ex_cfg /\ Inv2 ex_cfg ex_s0 /\ InvQ ex_cfg ex_s0 /\ wf_hist ex_cfg ex_s0 ex_hist /\
-  no_bft_reject ex_cfg ex_s0 ex_hist = true /\
-  cut_in_import ex_cfg ex_s0 ex_hist 19 4 /\
-  has (crash ex_cfg ex_s0 ex_hist 19) (KQuality (bid 5 5)) = true /\
-  finalized ex_cfg (crash ex_cfg ex_s0 ex_hist 19) = bid 0 7 /\
-  finalized ex_cfg (run ex_cfg ex_s0 (firstn 5 ex_hist)) = bid 2 2 /\
-  finalized ex_cfg (run ex_cfg ex_s0 ex_hist) = bid 4 4 /\
-  option_map (finalized ex_cfg) (resume ex_cfg true (crash ex_cfg ex_s0 ex_hist 19) (skipn 4 ex_hist)) = Some (bid 4 4).
-Proof. exact (conj ex_wf_cfg2 (conj ex_inv2 (conj ex_invq (conj ex_wf_hist (conj ex_no_reject ex_window_cut))))). Qed.
-
-(* the premise no_bft_reject is needed: a sibling of block 2 delivered after block 5 is refused by the uninterrupted node
-   (it has finalized block 2) and stored by the node restarted from cut 19 (it still holds genesis as finalized) *)
-Example catch_up_premise_needed :
-  wf_hist ex_cfg ex_s0 ex_hist_fork /\
-  cut_in_import ex_cfg ex_s0 ex_hist_fork 19 4 /\
-  no_bft_reject ex_cfg ex_s0 ex_hist_fork = false /\
-  stored (run ex_cfg ex_s0 ex_hist_fork) (bid 2 9) = false /\
-  option_map (fun r => stored r (bid 2 9)) (resume ex_cfg true (crash ex_cfg ex_s0 ex_hist_fork 19) (skipn 4 ex_hist_fork)) = Some true.
-Proof. exact (conj ex_fork_wf_hist ex_fork_diverges). Qed.
+Example invq_and_lag_not_vacuous :
+  InvQ ex_cfg ex_s0 /\ InvQ ex_cfg (run ex_cfg ex_s0 ex_hist) /\
+  Lag ex_cfg (split_window ex_cfg ex_s0 ex_hist 17 (bid 5 5) 3) (run ex_cfg ex_s0 (firstn 5 ex_hist)).
+Proof. exact ex_invq_lag. Qed.
 
 (* ---- the log database (the node's second store; anchors cmd/thor/sync_logdb.go, logdb/logdb.go).
    Key-value level: the combined sequence of atomic commits of one import is the main database's batches with the log
@@ -283,11 +254,11 @@ Example log_crash_example :
 Proof. exact (conj ExamplesLog.lx_imported (conj ExamplesLog.lx_valid ExamplesLog.lx_cut)). Qed.
 
 (* non-vacuity of the key-value statements: block 3 of the example history becomes best; the log commit is the second of
-   its six combined steps (account batch, LOG, index batch, block bulk, quality, finalized) *)
+   its five combined steps (account batch, LOG, index batch, block bulk, quality + finalized) *)
 Example dual_example :
   let s := run ex_cfg ex_s0 (firstn 2 ex_hist) in
   becomes_best ex_cfg s (ex_blk 3 []) = true /\
-  map (fun x => match x with WLog => true | WMain _ => false end) (dual_steps ex_cfg s (ex_blk 3 [])) = [false; true; false; false; false; false] /\
+  map (fun x => match x with WLog => true | WMain _ => false end) (dual_steps ex_cfg s (ex_blk 3 [])) = [false; true; false; false; false] /\
   stored (apply_writes s (mains (firstn 4 (dual_steps ex_cfg s (ex_blk 3 []))))) (bid 3 3) = true /\
   stored (apply_writes s (mains (firstn 3 (dual_steps ex_cfg s (ex_blk 3 []))))) (bid 3 3) = false.
 Proof. exact ex_dual. Qed.
@@ -365,23 +336,22 @@ Print Assumptions resume_quality_refuted.
 Print Assumptions f6_witness_is_that_cut.
 Print Assumptions without_repair_exactly_the_f6_cuts_diverge.
 Print Assumptions with_repair_every_cut_of_the_example_converges.
-Print Assumptions resume_converges_except.
+Print Assumptions resume_converges.
+Print Assumptions bft_commit_is_one_batch.
+Print Assumptions f13_split_write_refuted.
+Print Assumptions f13_witness.
+Print Assumptions f13_stream_converges_with_the_repair.
+Print Assumptions invq_and_lag_not_vacuous.
 Print Assumptions resume_converges_observations.
 Print Assumptions redelivered_known_block_is_noop.
-Print Assumptions import_reads_no_node_or_code.
+Print Assumptions import_decisions_read_only_chain_keys.
 Print Assumptions run_keeps_inv2.
 Print Assumptions genesis_store_inv2.
 Print Assumptions resume_hypotheses_met.
-Print Assumptions resume_catches_up.
-Print Assumptions resume_catches_up_observations.
-Print Assumptions resumed_node_inherits.
-Print Assumptions resumed_node_inherits_all.
 Print Assumptions lagging_import_step.
 Print Assumptions find_checkpoint_is_least_epoch.
 Print Assumptions run_keeps_invq.
 Print Assumptions genesis_store_invq.
-Print Assumptions catch_up_hypotheses_met.
-Print Assumptions catch_up_premise_needed.
 Print Assumptions main_db_sees_the_same_writes.
 Print Assumptions visible_best_block_is_logged.
 Print Assumptions log_commit_follows_state_commit.
